@@ -4,6 +4,8 @@ Correspondence: every bounds quantity of real arrays (all seven kinds, five
 subtypes, missing / empty / non-finite elements, sliced / taken / concatenated
 buffers) against Model/Bounds.v evaluated by the Coq kernel on the exported
 buffers; plus the agreement of array / GeoSeries / Dask / spatial-index values.
+Coordinates that are not small integers (all ten subtypes over their whole range) and
+Dask frames of every provenance (persisted, re-read from parquet, packed): c13_util.py.
 """
 import itertools
 import math
@@ -18,7 +20,8 @@ ANCHOR_FILES = ['spatialpandas/geometry/_algorithms/bounds.py',
                 'spatialpandas/geometry/baselist.py', 'spatialpandas/geometry/basefixed.py',
                 'spatialpandas/geoseries.py', 'spatialpandas/dask.py']
 TRUSTED = ['numpy slicing / boolean assignment as transcribed in Model/Arrow.v, Model/Bounds.v',
-           'pyarrow buffers() export (harness/common.py export_listarr/export_fixarr)']
+           'pyarrow buffers() export (harness/common.py export_listarr/export_fixarr, c13_util.export_exact)',
+           'Python int / float.as_integer_ratio arithmetic used to scale dyadic coordinates to integers']
 
 IMPORTS = 'Model.Num Model.Arrow Model.Bounds Spec.BoundsSpec'
 RES_TY = 'option (list bbox * bbox * (num * num) * (num * num))'
@@ -84,7 +87,10 @@ def run(rep):
                 'non-finite elements, then 0-3 random derivation steps (slice, take, rotate-concat, '
                 'mask, reverse); small scopes enumerated (see harness/c13.py); a case is non-trivial '
                 'when at least one element has a finite coordinate; distinct = distinct '
-                '(kind, subtype, exported buffers)')
+                '(kind, subtype, exported buffers); plus (harness/c13_util.py) all 10 subtypes with '
+                'coordinates over the whole range of the subtype (exact power-of-two scaling into the same '
+                'model) and Dask frames of 6 provenances x 1..12 partitions against the pandas array and '
+                'Model/DaskModel.v box_total')
     la_cases, la_res, la_meta = [], [], []
     fa_cases, fa_res, fa_meta = [], [], []
     import pandas as pd
@@ -274,17 +280,20 @@ def agree(rep, arr, meta):
                 rep.violation('agree:dask', 'Dask bounds/total_bounds differ from the array\'s',
                               {**meta, 'npartitions': nparts, 'array_total_bounds': list(tb),
                                'dask_total_bounds': list(np.asarray(dtb, dtype=float))})
-        if not np.isnan(np.asarray(b, dtype=float)).any():
+        nanb = np.isnan(np.asarray(b, dtype=float))
+        # rows without any extent (missing / empty elements) contribute to neither side; a row that
+        # is NaN in one dimension only is dropped whole by the index (documented there): skipped
+        if not (nanb.any(axis=1) & ~nanb.all(axis=1)).any():
             fresh = type(arr)(arr.data, dtype=arr.dtype)
-            tbf = [float(v) for v in tb]
-            if any(tbf[d] == tbf[d + 2] and tbf[d] + 1.0 == tbf[d] for d in (0, 1)):
-                # an extent of width 0 at |coordinate| >= 2^53: the index cannot be built
-                # (the +1 widening of _distances_from_bounds is absorbed, _data2coord divides by
-                # 0.0 -> ZeroDivisionError).  Modelled and compared by C08 (FloatData2Coord.v);
-                # not a statement about bounds.
-                rep.count('sindex-not-buildable:zero-extent-beyond-2^53')
-                return _rows_in_total(rep, b, tb, meta)
-            stb = fresh.sindex.total_bounds
+            # (an extent of width 0 at |coordinate| >= 2^53 included: the index builds since
+            #  7cf01a0, U.CORPUS has such arrays on every run)
+            try:
+                stb = fresh.sindex.total_bounds
+            except Exception as e:
+                rep.violation(f'agree:sindex-raises:{type(e).__name__}',
+                              f'the spatial index of the array cannot be built / asked for total_bounds: {e!r}'[:300],
+                              {**meta, 'array_total_bounds': list(tb)})
+                stb = tb
             if not _same(stb, tb):
                 rep.violation('agree:sindex', 'spatial index total_bounds differs from the array\'s',
                               {**meta, 'array_total_bounds': list(tb), 'sindex_total_bounds': list(stb)})
